@@ -78,6 +78,11 @@ def make_cases(tier):
                     lambda ns: "OCC" + "CC(F)(F)" * ns[0] + "[Si]"))
     out.append(Case("isopropyl-suffix", f"OCC{{[<]{tok}[>]}}{dist_text(fam, par)}C(C)C", [(fam, par, piece)], "prefix",
                     lambda ns, piece=piece: "OCC" + piece * ns[0] + "C(C)C"))
+    # two end groups can close the chain: generation picks one in proportion to its weight
+    out.append(Case("two-closing-end-groups", f"OCC{{[<]{tok}; [>]F, [>]Cl []}}{dist_text(fam, par)}", [(fam, par, piece)], "prefix",
+                    lambda ns, piece=piece: "OCC" + piece * ns[0] + "Cl", startprob=(1, 2), probe="choice-among-closing-end-groups-not-counted"))
+    out.append(Case("two-closing-end-groups-weighted", f"OCC{{[<]{tok}; [>|3|]F, [>]Cl []}}{dist_text(fam, par)}", [(fam, par, piece)], "prefix",
+                    lambda ns, piece=piece: "OCC" + piece * ns[0] + "F", startprob=(3, 4), probe="choice-among-closing-end-groups-not-counted"))
     # a law with noticeable mass below zero: those targets give one-unit chains
     out.append(Case("wide-gauss", f"OCC{{[<]{tok}[>]}}{dist_text('gauss', (60, 50))}[Si]", [("gauss", (60, 50), piece)], "prefix",
                     lambda ns, piece=piece: "OCC" + piece * ns[0] + "[Si]"))
